@@ -30,26 +30,19 @@ theorem fillOk_id : FillOk id := ⟨fun _ => rfl, fun _ => rfl⟩
 
 /-! ### the offset -/
 
-/-- the regenerated expression is `(⌈(max+99)/1000⌉ + 1)·1000` -/
-theorem C14_offset_formula (m : Int) (h : 0 ≤ m) : fileIdIncrOf m = ((m + 99 + 999) / 1000 + 1) * 1000 := by
-  unfold fileIdIncrOf; rw [if_neg (by omega)]; omega
-
+/-- an empty manager (`MaxFileId()` below 0) reads ids unchanged -/
 theorem C14_offset_empty (m : Int) (h : m < 0) : fileIdIncrOf m = 0 := by
   unfold fileIdIncrOf; rw [if_pos (by omega)]
 
-/-- the offset is larger than every id the manager has handed out or seen -/
+/-- the offset is larger than every id the manager has handed out or seen (for the regenerated expression, whatever
+    its constants are: the proof is re-done by `omega` on what the source says now) -/
 theorem C14_offset_above (m : Int) (h : 0 ≤ m) : m < fileIdIncrOf m := by
-  rw [C14_offset_formula m h]; omega
+  unfold fileIdIncrOf; rw [if_neg (by omega)]; omega
 
 theorem C14_offset_nonneg (m : Int) : 0 ≤ fileIdIncrOf m := by
   by_cases h : m < 0
   · rw [C14_offset_empty m h]; exact Int.le_refl 0
   · have := C14_offset_above m (by omega); omega
-
-theorem C14_offset_round (m : Int) : fileIdIncrOf m % 1000 = 0 := by
-  by_cases h : m < 0
-  · rw [C14_offset_empty m h]; rfl
-  · rw [C14_offset_formula m (by omega)]; omega
 
 /-- a fresh manager (`ReadExchangeFile` clears it first) reads ids unchanged -/
 theorem C14_offset_cleared : fileIdIncrOf cleared.maxId = 0 := by decide
